@@ -186,6 +186,27 @@ func (fr *frame) applyCall(cc *ssa.CallCommon, st *bstate, site ssa.Instruction,
 	for _, a := range args {
 		f.publish(a)
 	}
+	// sweep kind "constfmt": the format of fmt.Errorf / Sprintf / Fprintf is a constant, so that
+	// data (a peer's or handler's message) is only ever an operand of a verb, never the format
+	if f.sweep["constfmt"] && !f.dry {
+		if sc := cc.StaticCallee(); sc != nil && sc.Pkg != nil && sc.Pkg.Pkg.Path() == "fmt" {
+			fi := -1
+			switch sc.Name() {
+			case "Errorf", "Sprintf", "Printf":
+				fi = 0
+			case "Fprintf":
+				fi = 1
+			}
+			if fi >= 0 && fi < len(cc.Args) {
+				goal := "false"
+				if _, isConst := cc.Args[fi].(*ssa.Const); isConst {
+					goal = "true"
+				}
+				f.oblige(st, fmt.Sprintf("%s#constant-format:%s", fnShortName(fr.fn), sc.Name()), "safety", f.sweepTags, goal,
+					"the format string of fmt."+sc.Name()+" is not a constant: text taken from data is interpreted as formatting verbs", posStr(f.e.fset, pos))
+			}
+		}
+	}
 	var spec *FuncSpec
 	var pnames []string
 	var callee *ssa.Function
@@ -2182,5 +2203,47 @@ func (fr *frame) beforeSendAsserts(site ssa.Instruction, st *bstate, taken strin
 			continue
 		}
 		f.oblige(st, fmt.Sprintf("%s#before:send#%d:%s", fnShortName(fr.fn), ba.Ordinal, clauseLabel(ba.C)), "assert", ba.C.Tags, implies(taken, v), ba.C.Src, ba.C.Line)
+	}
+}
+
+// before call return#N assert ...: the pseudo callee "return" names the N-th return
+// statement of the function in source order (0: every return); the assertion is an
+// ensures clause that may also mention the function's local variables. ret/ret1/...
+// denote the values being returned.
+func (fr *frame) beforeReturnAsserts(x *ssa.Return, st *bstate, vals []Val) {
+	f := fr.f
+	if !fr.top || fr.spec == nil || len(fr.spec.Before) == 0 || f.dry {
+		return
+	}
+	ord := 0
+	{
+		var list []ssa.Instruction
+		for _, b := range fr.fn.Blocks {
+			for _, in := range b.Instrs {
+				if _, ok := in.(*ssa.Return); ok && in.Pos().IsValid() {
+					list = append(list, in)
+				}
+			}
+		}
+		sort.SliceStable(list, func(i, j int) bool { return list[i].Pos() < list[j].Pos() })
+		for i, in := range list {
+			if in == ssa.Instruction(x) {
+				ord = i + 1
+			}
+		}
+	}
+	for _, ba := range fr.spec.Before {
+		if ba.Callee != "return" || !f.e.active(ba.C.Tags) || (ba.Ordinal != 0 && ba.Ordinal != ord) {
+			continue
+		}
+		ba.C.used = true
+		env := fr.specEnv(st.heap, fr.oldHeap, vals)
+		env.addVars(fr.localEnvAtInstr(x, st.heap))
+		v, err := env.evalBool(ba.C.E)
+		if err != nil {
+			f.fail("%s: before return: %v", ba.C.Line, err)
+			continue
+		}
+		f.oblige(st, fmt.Sprintf("%s#before:return#%d:%s", fnShortName(fr.fn), ord, clauseLabel(ba.C)), "assert", ba.C.Tags, v, ba.C.Src, ba.C.Line)
 	}
 }
